@@ -104,9 +104,10 @@ def check_recv_protocol(cx, rule, prefix):
             some = variant_edge(b.term, 1)
             for lab, dst in cfg.succ[b.idx]:
                 if (b.idx, lab, dst) != some: final_edges.add((b.idx, dst))
+            # the payload test under Some(..); without one the Some edge decides nothing (Some(false) is a final reply too)
             for b2 in sorted(cfg.reach(some[2])):
                 t2 = body.blocks[b2].term
-                if t2.kind == "switch" and t2.discr.place is not None and "continues" in t2.discr.place.fields():
+                if t2.kind == "switch" and t2.discr.place is not None and "continues" in t2.discr.place.fields() and any(e.startswith("as Some") for e in t2.discr.place.p):
                     for lab, dst in cfg.succ[t2.bb]:
                         (final_edges if lab == 0 else more_edges).add((t2.bb, dst))
                     break
@@ -133,7 +134,7 @@ def check_recv_protocol(cx, rule, prefix):
             te, fe = bool_edges(b.term, c)
         if te is not None:
             more_edges.add((te[0], te[2])); final_edges.add((fe[0], fe[2]))
-    if not more_edges or not final_edges: raise AnchorMissing("recv: no decision on reply.continues == Some(true)")
+    if not more_edges and not final_edges: raise AnchorMissing("recv: no decision on reply.continues at all")
     hb_r = field_assigns(body, "reader", "Connection"); hb_w = field_assigns(body, "writer", "Connection")
     locks = lock_acquisitions(f)
     limit = []
@@ -163,7 +164,8 @@ def check_recv_protocol(cx, rule, prefix):
         if is_final and not (hr and hw): bad_hand.append(("final reply but the stream is not handed back", p))
         if is_more and (hr or hw): bad_hand.append(("more replies expected but the stream is handed back", p))
     cx.check(not no_update and nmore and nfinal, rule, prefix + ":recv:continues-updated-on-every-exit", site,
-             "%d path(s) from a parsed reply to a return never update self.continues (e.g. the error return, blocks %s): the iterator keeps polling (or stops) on stale state" % (len(no_update), no_update[0][:18] if no_update else "-"),
+             ("%d path(s) from a parsed reply to a return never update self.continues (e.g. the error return, blocks %s): the iterator keeps polling (or stops) on stale state" % (len(no_update), no_update[0][:18]))
+             if no_update else "recv() has %d return path(s) deciding 'more replies follow' and %d deciding 'final reply' on the value of reply.continues: both outcomes must be distinguished (Some(false) and None are final, only Some(true) continues)" % (nmore, nfinal),
              note_ok="self.continues is set on all %d paths from the parse to a return" % (nmore + nfinal))
     cx.check(not bad_true, rule, prefix + ":recv:continues-true-iff-reply-says-so", site,
              "%d path(s) set self.continues to a value that disagrees with reply.continues == Some(true)" % len(bad_true), note_ok="true exactly for Some(true)")
@@ -211,3 +213,22 @@ def check_next(cx, rule, prefix):
     good = len(ca) == 1 and ca[0].ops[0].is_const and ca[0].ops[0].cint() == 1 and len(sends) == 1 and flags == [0, 1, 0] and m.cfg.dominates(ca[0].bb, sends[0].bb)
     cx.check(good, rule, prefix + ":more:arms-the-iterator", m.body.sp, "more() must set continues = true and call send(oneway=false, more=true, upgrade=false) (flags %s)" % flags,
              note_ok="continues = true; send(false, true, false)")
+
+
+def check_slot_writers(cx, rule, prefix):
+    """who may put a stream back into the connection: only recv() (final reply), send() (oneway: the writer only) and the constructors"""
+    allowed = {MC + "recv": {"reader", "writer"}, MC + "send": {"writer"}}
+    n = 0
+    for b in cx.mir.bodies("varlink"):
+        if b.promoted is not None: continue
+        hits = set()
+        for s in b.stmts():
+            if s.kind == "assign" and s.lhs.p and s.lhs.fields()[-1:] in (["reader"], ["writer"]) and "Connection" in b.ty(s.lhs.l) and "MethodCall" not in b.ty(s.lhs.l):
+                hits.add(s.lhs.fields()[-1])
+        if not hits: continue
+        n += 1
+        ok = b.path in allowed and hits <= allowed[b.path]
+        cx.check(ok, rule, "%s:%s:assigns-Connection.%s" % (prefix, b.path, "+".join(sorted(hits))), b.sp,
+                 "%s puts the %s back into the connection: only recv() on a final reply (and send() for the oneway writer) may do that — a stream handed back while replies are still outstanding lets another call read them" % (b.path, "/".join(sorted(hits))),
+                 note_ok="allowed slot writer")
+    cx.floor(rule, "functions assigning Connection.reader/writer", n, 2)
